@@ -14,6 +14,7 @@
 -/
 import EasyMl.Lemmas.ArithMatrix
 import EasyMl.Lemmas.ShapeIter
+import EasyMl.Lemmas.ArithViews
 
 namespace EasyMl.C03
 open EasyMl
@@ -475,7 +476,42 @@ theorem tensor_matrix_agree [Add α] [Mul α] [Zero α]
       mMatMul_eq hn hn2 hm1.rows_pos hm2.cols_pos hA hB, rfl, ?_⟩
     simp
 
+/-! ### Every composition of the library's view adaptors is a well-formed operand -/
+
+/-- C02's model of the view adaptors (`View`: any composition of range / mask / index / expansion /
+    rename / reverse / access / transpose / stack / chain over tensors and matrices, verified and
+    tied to the code there) plugs into this property: a well-formed view over distinct containers
+    is a well-formed operand with the same shape whose elements are those the checked getter
+    reads.  Hence every theorem above holds for operands built from any of those adaptors. -/
+theorem library_views_are_operands [Inhabited ν] (w : View ν α) (h : w.WF) (hn : w.leafIds.Nodup) :
+    (Operand.view (Arith.TView.ofView w)).WF ∧ (Arith.TView.ofView w).shape = w.shape ∧
+    ∀ idx, inBounds (lens w.shape) idx = true →
+      ∃ a, w.read idx = .ok (some a) ∧ (Arith.TView.ofView w).get idx = some a := by
+  have hwf := ofView_WF w h hn
+  refine ⟨hwf, rfl, ?_⟩
+  intro idx hin
+  have hs := hwf.some_of_inBounds idx hin
+  rw [Arith.TView.ofView_get w idx hin] at hs ⊢
+  cases hr : w.read idx with
+  | panic k => simp [hr] at hs
+  | ok o =>
+    cases o with
+    | none => simp [hr] at hs
+    | some a => exact ⟨a, rfl, rfl⟩
+
 /-! ### Non-vacuity: concrete operands meeting the hypotheses -/
+
+/-- a reversed 2×2 tensor is a well-formed `View` over one container -/
+example :
+    ∃ w : View String Int, w.WF ∧ w.leafIds.Nodup ∧ w.shape = [("a", 2), ("b", 2)] ∧
+      (Arith.TView.ofView w).elems = [3, 4, 1, 2] := by
+  refine ⟨.reverse (.tensor 0 ⟨[1, 2, 3, 4], [("a", 2), ("b", 2)], [2, 1]⟩) [true, false],
+    ?_, by decide, rfl, by decide⟩
+  refine ⟨⟨⟨by decide, ?_⟩, rfl, rfl, by decide⟩, rfl⟩
+  intro d hd
+  simp only [List.mem_cons, List.not_mem_nil, or_false] at hd
+  rcases hd with rfl | rfl <;> decide
+
 
 /-- A concrete 2×3 tensor is a well-formed container operand, its transposing view (iteration
     order ≠ storage order) a well-formed 3×2 view operand, and the two can be multiplied:
